@@ -544,7 +544,9 @@ def hp_drift(scripts, traces):
     compared = bad = 0
     first = None
     for sc in scripts:
-        if 'dict-model' not in sc.get('tags', []) or sc['cfg'].get('kind') not in ('HP', 'BHP', 'BUP', 'DHP', 'BDHP'):
+        tags = sc.get('tags', [])
+        if not (('dict-model' in tags and sc['cfg'].get('kind') in ('HP', 'BHP', 'BUP', 'DHP', 'BDHP'))
+                or ('tlc-cover' in tags and sc['cfg'].get('kind') in ('GSAP', 'OSAP'))):
             continue
         tr = traces.get(sc['tid'])
         if not tr:
@@ -552,8 +554,10 @@ def hp_drift(scripts, traces):
         evs = [e for e in tr[1][1:] if e['op'] != 'end']
         for o, e in zip(sc['ops'], evs):
             ex = o.get('expect')
-            if ex is None or e['op'] != o['op']:
+            if e['op'] != o['op']:
                 break
+            if ex is None:
+                continue
             compared += 1
             ok = all(e.get(k) == v for k, v in ex.items() if k != 'seqs')
             if 'seqs' in ex:
@@ -563,7 +567,7 @@ def hp_drift(scripts, traces):
                 first = first or dict(tid=sc['tid'], op=o['op'], predicted=ex,
                                       recorded={k: e.get(k) for k in list(ex) if k in e})
                 break
-    return dict(compared=compared, disagreements=bad, first=first, model='HP.tla (HP, BHP) / BUP.tla / DHP.tla (DHP, BDHP)')
+    return dict(compared=compared, disagreements=bad, first=first, model='HP.tla (HP, BHP) / BUP.tla / DHP.tla (DHP, BDHP) / GSAP.tla / OSAP.tla')
 
 
 def run_parser(ctx, fam):
@@ -614,6 +618,8 @@ def run_parser(ctx, fam):
                 cfgd.pop('BucketSize', None) if kind != 'BUP' else None
                 scripts.append(dict(tid='%s-cover-%d' % (mk.lower(), i), comp='parser', cfg=cfgd, ops=ops[1:],
                                     tags=['dict-model', kind]))
+        fam = dict(fam, _drift=hp_drift)
+    if fam.get('design') or mix.get('design'):
         fam = dict(fam, _drift=hp_drift)
     for gen, n in mix.get('go', []):
         scripts += vlib.go_gen(ctx, gen, n * scale, ctx.seed)
